@@ -101,7 +101,18 @@ def gen_form(rng, reg0=False, positive=False, smooth=False, names=None, rmax=20.
     # buck (even with C = 0) evaluates C/r**6 and raises at exactly r = 0, outside C06's r > 0 domain
     pool = [n for n in pool if n in ("bornmayer", "constant", "exponential", "morse", "polynomial", "sqrt", "zero", "exp_spline")]
   name = rng.choice(pool)
-  return {"k": "form", "name": name, "p": gen_form_params(rng, name, reg0, rmax=rmax)}
+  p = gen_form_params(rng, name, reg0, rmax=rmax)
+  if rng.random() < 0.08 and name in INT_OK:
+    # whole-number parameters given as Python ints (spelled '3', not '3.0', in a file): same numbers, another type
+    for i in (INT_OK[name] if INT_OK[name] is not None else range(len(p))):
+      if abs(p[i]) >= 1:
+        p[i] = int(round(p[i]))
+  return {"k": "form", "name": name, "p": p}
+
+
+# parameter positions that may be rounded to whole numbers without leaving the form's domain (None: all)
+INT_OK = {"buck": [0, 2], "bornmayer": [0], "coul": [0, 1], "constant": None, "polynomial": None, "hbnd": [0, 1], "lj": [0], "morse": [2],
+          "sqrt": [0], "exponential": [0], "tang_toennies": [0, 2, 3, 4]}
 
 
 def gen_form_params(rng, name, reg0=False, distinct=False, rmax=20.0):
@@ -367,7 +378,7 @@ def gen_node(rng, depth=2, route="potable", reg0=False, positive=False, smooth=F
     return {"k": k, "a": [sub() for _ in range(rng.choice([1, 2, 2, 3, 4]))]}
   if k == "pow":
     cst = lambda lo, hi: {"k": "form", "name": "constant", "p": [rfloat(rng, lo, hi)]}
-    expo = rng.choice([{"k": "form", "name": "constant", "p": [rng.choice([2.0, 0.5, -1.0, 3.0, rfloat(rng, -2.0, 2.5)])]},
+    expo = rng.choice([{"k": "form", "name": "constant", "p": [rng.choice([2.0, 0.5, -1.0, 3.0, rfloat(rng, -2.0, 2.5), 1, 2, 0, 3, -1, 1.0, 1])]},
                        {"k": "form", "name": "polynomial", "p": [rfloat(rng, -1, 1), rfloat(rng, -0.05, 0.05)]},
                        # the exponent may itself be any definition: nested pow / sum / product (kept small)
                        {"k": "pow", "a": [rng.choice([cst(0.5, 3.0), {"k": "form", "name": "polynomial", "p": [rfloat(rng, 0.5, 2.0), rfloat(rng, 0.0, 0.04)]}]), cst(-1.0, 1.5)]},
@@ -878,29 +889,35 @@ def scale_form(node, e):
   return {"k": "form", "name": name, "p": p}
 
 
-def exact_boundary_model(rng, target, variant, nr=None):
+def exact_boundary_model(rng, target, variant, nr=None, dlpoly=False, shared=False):
   """A pair model on a grid that is exact in doubles (dyadic step) with a discontinuity exactly ON a row: the first
   row, an interior row or the last row (= cutoff); or a table form whose data points are the grid rows themselves
   (last x == cutoff).  Returns (model, k) with k the row index (r = k*dr) of the boundary."""
-  nr = nr or rng.choice([3, 5, 9, 17])
+  nr = nr or (rng.choice([8, 12, 20]) if dlpoly else rng.choice([3, 5, 9, 17]))
   dr = rng.choice([0.25, 0.5, 0.125])
-  cutoff = (nr - 1) * dr
-  k = {"first": 1, "last": nr - 1}.get(variant.split(":")[0], rng.randint(1, nr - 1))
+  cutoff = (nr - 4) * dr if dlpoly else (nr - 1) * dr       # DL_POLY: delpot = cutoff/(nr-4), rows 1..nr
+  klast = nr - 4 if dlpoly else nr - 1                      # the row that coincides with the cutoff
+  k = {"first": 1, "last": klast}.get(variant.split(":")[0], rng.randint(1, nr - 1))
   inner = {"k": "form", "name": "polynomial", "p": [rfloat(rng, 1.0, 5.0), rfloat(rng, -1.0, -0.2), rfloat(rng, 0.01, 0.1)]}
   outer = rng.choice([{"k": "form", "name": "zero", "p": []}, {"k": "form", "name": "polynomial", "p": [rfloat(rng, -3.0, -1.0), rfloat(rng, 0.3, 1.0)]},
                       {"k": "form", "name": "constant", "p": [rfloat(rng, 7.0, 9.0)]}])
   tables = []
   if variant.endswith("table"):
-    xs = [i * dr for i in range(0 if rng.random() < 0.5 else 1, nr)]
+    xs = [i * dr for i in range(0 if rng.random() < 0.5 else 1, klast + 1)]
     if len(xs) < 4:
-      xs = [i * dr / 2 for i in range(0, 2 * nr - 1)]
+      xs = [i * dr / 2 for i in range(0, 2 * klast + 1)]
     tables = [{"name": "gridtab", "x": xs, "y": [rfloat(rng, -2.0, 2.0, 4) for _ in xs], "as": rng.choice(["xy", "x_y"])}]
     node = {"k": "table", "name": "gridtab"}
-    k = nr - 1
+    k = klast
   else:
     marker = ">" if variant.endswith(">") else ">="
     node = {"k": "ranges", "parts": [[">", 0.0, inner], [marker, k * dr, outer]]}
   model = {"type": "pair", "target": target, "tab": {"nr": nr, "cutoff": cutoff}, "forms": [], "tables": tables, "pair": [["Ar", "Kr", node]]}
+  if shared:
+    # the very same callable object serves two potentials (API): the second block starts at row 1 again right after the
+    # first block's last row was evaluated
+    model["pair"].append(["Kr", "Kr", node])
+    model["share_callables"] = True
   return model, k
 
 
@@ -937,3 +954,26 @@ def exact_boundary_eam(rng, kind, target, route="potable"):
       ent[-1] = stepfn(nr, dr, rows_r)
   m["exact_rows"] = {"r": sorted(rows_r), "rho": sorted(rows_rho)}
   return m
+
+
+def edge_sizes(tier, multiple_of=1, lo=2):
+  """Row counts at which a blocked / chunked / off-by-one loop would show: everything small, and m*10^k, 2^k and
+  multiples of 5000 each with their neighbours (a sweep over sizes, not a sample of typical ones)."""
+  out = set(range(lo, 70))
+  for k in range(1, 5):
+    for m in range(1, 10):
+      for d in (-1, 0, 1):
+        out.add(m * 10 ** k + d)
+  for k in range(3, 17):
+    for d in (-1, 0, 1):
+      out.add(2 ** k + d)
+  for m in range(1, 9):
+    for d in (-1, 0, 1):
+      out.add(5000 * m + d)
+  top = 20100 if tier == "quick" else 100001
+  if tier != "quick":
+    out.update([100000, 100001, 99999, 65535, 65536, 65537, 60001, 80001])
+  out = sorted(n for n in out if lo <= n <= top)
+  if multiple_of > 1:
+    out = sorted(set((n // multiple_of) * multiple_of for n in out if n >= multiple_of) | set(((n // multiple_of) + 1) * multiple_of for n in out))
+  return out
